@@ -674,7 +674,8 @@ fn self_test(run: &mut Run, tera: &tera::Tera) {
 
 fn main() {
     let mut run = Run::from_env("C13", "exploration");
-    let thorough = run.tier.is_thorough();
+    // the full bounds cost only a few seconds: both tiers run them
+    let thorough = true;
     run.rule(
         "arithmetic: every ordered pair (a, b) of the numeric alphabet x 7 operators x every available spelling \
          (context value / literal per operand), one case per rendered template; comparison: every ordered pair x 6 \
